@@ -91,6 +91,12 @@ def make_src(world, sid, spec):
 
             return act
 
+        def push(self, m):
+            """deliver one more notification NOW (possibly re-entrantly, from inside a subscriber's callback): what
+            `subject.on_next(...)` called by a consumer does"""
+            for o, my in self.observers[:]:
+                self._deliver(o, m, my)
+
         def _deliver(self, o, m, my):
             if m[1] == "N":
                 world.log.append(["ev", my, ["N", m[2]], world.now()])
@@ -142,7 +148,11 @@ def make_src(world, sid, spec):
 
             return Disposable(d)
 
-    return Src()
+    src = Src()
+    if not hasattr(world, "srcs"):
+        world.srcs = {}
+    world.srcs[sid] = src
+    return src
 
 
 def make_timer_src(world, sid, spec):
@@ -208,41 +218,88 @@ def make_tap(world, sid, inner, value_id=None):
 def run_second_subscriber(make_world_and_build, second):
     """Two subscribers on ONE observable instance: A subscribes at 200 and is disposed at second["dispose1"], B subscribes at
     second["sub2"] (before or after that).  Returns B's timed output and, for comparison, the output of a single subscriber at
-    the same instant on a FRESH instance of the same case: whatever A did must not leak into B."""
-    def outputs_of(with_first):
+    the same instant on a FRESH instance of the same case (and A's output next to A alone): the two must not influence each other."""
+    def outputs_of(with_first, with_second):
         world, build = make_world_and_build()
         sched = world.sched
-        holder, out = {}, []
+        holder, outs = {}, {"a": [], "b": []}
         sched.schedule_absolute(100, lambda *_: holder.__setitem__("obs", build()))
 
-        def sub(tag, record):
+        def sub(tag):
+            out = outs[tag]
+
             def go(*_):
                 holder[tag] = holder["obs"].subscribe(
-                    (lambda v: out.append([world.now(), ["N", enc(v)]])) if record else (lambda v: None),
-                    (lambda e: out.append([world.now(), ["E", err_name(e)]])) if record else (lambda e: None),
-                    (lambda: out.append([world.now(), ["C"]])) if record else (lambda: None),
+                    lambda v: out.append([world.now(), ["N", enc(v)]]),
+                    lambda e: out.append([world.now(), ["E", err_name(e)]]),
+                    lambda: out.append([world.now(), ["C"]]),
                     scheduler=sched)
             return go
 
         if with_first:
-            sched.schedule_absolute(SUBSCRIBE_AT, sub("a", False))
+            sched.schedule_absolute(SUBSCRIBE_AT, sub("a"))
             sched.schedule_absolute(max(second["dispose1"], SUBSCRIBE_AT + 1), lambda *_: holder["a"].dispose())
-        sched.schedule_absolute(max(second["sub2"], SUBSCRIBE_AT + 1), sub("b", True))
+        if with_second:
+            sched.schedule_absolute(max(second["sub2"], SUBSCRIBE_AT + 1), sub("b"))
         sched.schedule_absolute(END, lambda *_: sched.stop())
         sched.start()
         for t in ("a", "b"):
             if t in holder:
                 holder[t].dispose()
-        return [o for o in out if o[0] <= END]
+        return {t: [o for o in outs[t] if o[0] <= END] for t in outs}
 
-    return {"outB": outputs_of(True), "fresh": outputs_of(False)}
+    both = outputs_of(True, True)
+    return {"outA": both["a"], "outB": both["b"], "freshA": outputs_of(True, False)["a"], "fresh": outputs_of(False, True)["b"]}
+
+
+def second_failure(case, r, what):
+    if r["outB"] != r["fresh"]:
+        return (f"a second subscriber (at {case['second']['sub2']}; the first one lives from 200 to {case['second']['dispose1']}) of the same "
+                f"observable got {r['outB']}, alone on a fresh instance it gets {r['fresh']}: {what}")
+    if r["outA"] != r["freshA"]:
+        return (f"the first subscriber (200..{case['second']['dispose1']}) got {r['outA']} while a second one subscribed at "
+                f"{case['second']['sub2']}; alone on a fresh instance it gets {r['freshA']}: {what}")
+    return None
+
+
+def gen_feedback_case(rng, op):
+    """Re-entrant switch / merge: an inner that emits synchronously inside its own subscribe; the consumer reacts to one of its
+    elements by pushing the NEXT inner into the (hot) outer - the new inner arrives while the old one is still inside subscribe and
+    cannot be disposed yet; the old inner then goes on (stale) and completes; the outer completes before or after the latest inner."""
+    t1 = SUBSCRIBE_AT + 5 * rng.randint(1, 4)
+    n_sync = rng.randint(1, 3)
+    sync_msgs = [[0, "N", enc((1, j, rng.choice(FALSY)))] for j in range(n_sync)]
+    r = rng.random()
+    if r < 0.75:
+        sync_msgs.append([0, "C"])
+    elif r < 0.85:
+        sync_msgs.append([0, "E", "e1"])
+    inners = {"1": {"mode": "sync", "msgs": sync_msgs}}
+    feedback = [{"on": [1, rng.randrange(n_sync)], "push": 2}]
+    if rng.random() < 0.3:
+        # a second synchronous inner that triggers a third
+        m = rng.randint(1, 2)
+        msgs2 = [[0, "N", enc((2, j, rng.choice(FALSY)))] for j in range(m)] + ([[0, "C"]] if rng.random() < 0.8 else [])
+        inners["2"] = {"mode": "sync", "msgs": msgs2}
+        feedback.append({"on": [2, rng.randrange(m)], "push": 3})
+        last = 3
+    else:
+        last = 2
+    inners[str(last)] = gen_src(rng, last, allow_sync=False, p_rude=0.0, span=30, p_complete=0.8, p_error=0.1)
+    outer_msgs = [[t1, "N", 1]]
+    r = rng.random()
+    if r < 0.75:
+        outer_msgs.append([t1 + 5 * rng.randint(0, 8), "C"])     # often BEFORE the latest inner completes
+    elif r < 0.85:
+        outer_msgs.append([t1 + 5 * rng.randint(0, 8), "E", "e0"])
+    return {"op": op, "outer": {"mode": "hot", "msgs": outer_msgs}, "inners": inners, "feedback": feedback, "dispose": None}
 
 
 def gen_second(rng):
     return {"dispose1": SUBSCRIBE_AT + 5 * rng.randint(1, 10), "sub2": SUBSCRIBE_AT + 5 * rng.randint(1, 14)}
 
 
-def run_world(world, build, dispose=None, cut=None, inline=False):
+def run_world(world, build, dispose=None, cut=None, inline=False, react=None):
     """build() -> observable (called at time 100); subscribed at 200; dispose = None | [t, mode] (mode 0: queued before
     the subscription, 1: queued right after it, 2: queued one tick before t); cut = None | m: the
     subscriber disposes from inside its m-th on_next (what `take(m)` does to its upstream); inline: subscribe with an
@@ -261,6 +318,8 @@ def run_world(world, build, dispose=None, cut=None, inline=False):
 
     def on_next(v):
         log.append(["out", ["N", enc(v)], world.now()])
+        if react is not None:
+            react(enc(v))     # the consumer reacts to an element (e.g. pushes the next request into the outer subject)
         seen[0] += 1
         if cut is not None and seen[0] == cut:
             do_dispose()
@@ -501,7 +560,17 @@ def _run_ho_impl(case):
     """-> log of the real run; the outer events are already translated to what the operator after `map` sees."""
     w, build, idx_seen = ho_world_and_build(case)
     raise_on = case.get("raise_on")
-    log = run_world(w, build, case.get("dispose"))
+    react = None
+    if case.get("feedback"):
+        fired = set()
+
+        def react(venc):
+            for i, fb in enumerate(case["feedback"]):
+                if i not in fired and isinstance(venc, dict) and venc.get("t", [None, None])[:2] == fb["on"]:
+                    fired.add(i)
+                    w.srcs[0].push([0, "N", fb["push"]])
+
+    log = run_world(w, build, case.get("dispose"), react=react)
     # what the operator behind `map(mapper)` receives from source 0
     for e in log:
         if e[0] == "ev" and e[1] == 0 and e[2][0] == "N" and e[2][1] == raise_on:
